@@ -38,9 +38,9 @@ def run(ctx):
         argv = ["-out", out] + how["argv"]
     else:
         if q:
-            plan = [("pre,boundary,post,pos", 30), ("hayabusa", 45)]
+            plan = [("pre,boundary,post", 30), ("pos", 36), ("hayabusa", 45), ("evict", 32)]
         else:
-            plan = [("pre,boundary,post,pos,hayabusa", 400)]
+            plan = [("pre,boundary,post,pos,hayabusa,evict", 350)]
         argv = None
     events, stats = [], []
     runs = plan if not ctx.replay else [None]
@@ -113,7 +113,7 @@ def run(ctx):
         rest = evs[:start] + evs[end:]
         return rest if any(e["e"] == "Reset" for e in rest) else [{"e": "Reset", "galactica": -1, "gen": {"id": "none", "gasLimit": 0, "gasUsed": 0, "hasBase": False, "baseFee": []}}, {"e": "End"}]
 
-    how = {"argv": ["-seed", str(ctx.seed), "-profiles", "pre,boundary,post,pos,hayabusa", "-blocks", "45" if q else "400"]}
+    how = {"argv": ["-seed", str(ctx.seed), "-profiles", "pre,boundary,post,pos,hayabusa,evict", "-blocks", "45" if q else "350"]}
     rejects, rest = ec.validate(ctx, "Trace_Ledger", events, "c08", how, classify, drop_run, max_rejects=5)
     ok_blocks = sum(1 for e in rest if e["e"] == "Block") if rejects else len(blocks)
     ctx.cov["traces_validated_against_impl"] = ok_blocks
@@ -145,6 +145,13 @@ def run(ctx):
     ctx.cov["blocks_delegator_split"] = sum(1 for b in blocks if b["split"])
     ctx.cov["blocks_after_growth_stop"] = sum(1 for b in blocks if b["stopped"])
     ctx.cov["sibling_blocks"] = sum(1 for b in blocks if b["sibling"])
+    ctx.cov["account_flow_equations"] = sum(len(b["flows"]) for b in blocks)
+    ctx.cov["flow_equations_payer_only"] = sum(1 for b in blocks for f in b["flows"] if f["payer"] and not f["benef"] and not f["deleg"])
+    ctx.cov["flow_equations_delegator_share"] = sum(1 for b in blocks for f in b["flows"] if f["deleg"] and b["split"] and b["pos"])
+    ctx.cov["txs_with_proved_work"] = sum(b["mined"] for b in blocks)
+    ctx.cov["distinct_gas_limits"] = len({b["hdr"]["gasLimit"] for b in blocks})
+    ctx.cov["blocks_used_equals_target"] = sum(1 for b in blocks if b["hdr"]["gasUsed"] == b["hdr"]["gasLimit"] * 75 // 100 and b["hdr"]["gasUsed"] > 0)
+    ctx.cov["locked_stake_values"] = sorted({b["staked"] for b in blocks})
     ctx.cov["energy_supply_law_blocks"] = len(blocks)
     ctx.cov["energy_supply_law_max_rounding_wei"] = max_slack
     ctx.cov["energy_blocks_growing"] = sum(1 for b in blocks if not b["stopped"])
@@ -164,7 +171,7 @@ def run(ctx):
         "and the per-leaf sum; the 1e6 wei VET destroyed by the deterministic F3 call makes TotalSupply over-estimate growth by 0.005 wei/s, inside that bound",
         "energy of an account at a block time is computed by a reference implementation of the documented growth formula in the driver "
         "(5e9 wei per VET per second, stops at the recorded growth-stop time), not by state.Account.CalcEnergy",
-        "legacy transactions carry no proved work (the drivers never mine a nonce); the reward rule with proved work is not covered",
+        "proved work: three mined legacy txs per profile; 1000 work units per gas, the monthly decay of the conversion is 1 at these heights and not modelled",
         "the locked stake and PoS-active flag are read from the post-state through the staker's own getters; the issuance formula itself is the specification's",
         "the design-level model is exhaustive only inside MC_Ledger*.cfg; the Apalache inductive proof mentioned in DESIGN was not attempted",
     ]
